@@ -3,6 +3,7 @@
   Statements are FIXED: prove them exactly as stated (helper lemmas go above them or in Cgp/Proofs/C14.lean).
 -/
 import Cgp.GasService
+import Cgp.Toy
 namespace Cgp.Props.C14
 open Cgp Cgp.Xdr Cgp.Sac Cgp.GasService
 
@@ -401,5 +402,75 @@ theorem nonpositive_payment_rejected (st : State) (auths : List Addr) (sender : 
     split
     · exact ⟨_, rfl⟩
     · exact ⟨_, rfl⟩
+
+/-! ### non-vacuity (the model RUN in the kernel on a concrete history, toy hash) -/
+section NonVacuity
+open Cgp.Toy
+
+def svcG : Addr := ⟨true, List.replicate 32 5⟩
+def coll : Addr := ⟨false, List.replicate 32 6⟩
+def user : Addr := ⟨false, List.replicate 32 11⟩
+def other : Addr := ⟨false, List.replicate 32 12⟩
+def app : Addr := ⟨true, List.replicate 32 9⟩
+def gasTok : Addr := ⟨true, List.replicate 32 21⟩
+def noTok : Addr := ⟨true, List.replicate 32 22⟩
+/-- one gas token; the user holds 1000 of it -/
+def bank0 : Bank := { isToken := fun a => a == gasTok, bal := fun t h => if t = gasTok ∧ h = user then 1000 else 0 }
+def st0 : State := { self := svcG, owner := owner0, collector := coll, bank := bank0 }
+def opsG : List Op :=
+  [ .payGas [user] app [100] [101] [1, 2] user gasTok 50 [],            -- +50
+    .addGas [user] app [49] user gasTok 20,                             -- +20
+    .collectFees [coll] coll gasTok 30,                                 -- −30
+    .refund [coll] [49] user gasTok 10,                                 -- −10
+    .collectFees [coll] coll gasTok 100,                                -- more than held (30): refused
+    .refund [coll] [49] user gasTok 1000,                               -- more than held: refused
+    .collectFees [user] user gasTok 5,                                  -- not the collector: refused
+    .refund [user] [49] user gasTok 5,                                  -- not the collector: refused
+    .payGas [user] app [100] [101] [1, 2] user gasTok 0 [],             -- zero amount: refused
+    .payGas [] app [100] [101] [1, 2] user gasTok 5 [],                 -- no authorisation of the spender: refused
+    .payGas [user] app [100] [101] [1, 2] user gasTok 5000 [],          -- more than the spender has: refused
+    .addGas [user] app [49] user noTok 5,                               -- no such token: refused
+    .userTransfer gasTok user other 100 true,                           -- environment: does not touch the service
+    .adminMint gasTok other 7 ]
+/-- what each call of a history returned: `none` = success -/
+def outcomes (st : State) : List Op → List (Option Err)
+  | [] => []
+  | op :: rest => (match (step H st op).2 with | .ok _ => none | .error e => some e) :: outcomes (step H st op).1 rest
+
+instance (self : Addr) (op : Op) : Decidable (External self op) := by
+  cases op <;> simp only [External] <;> infer_instance
+
+theorem bankNonNeg_st0 : BankNonNeg st0.bank := by
+  intro t h
+  simp only [st0, bank0]
+  split <;> decide
+
+/-- the hypotheses of `service_balance_run` and `nonneg_run` are satisfiable and the equation is not `0 = 0`: a payment (50), a
+    top-up (20), a fee collection (30), a refund (10), then eight refused calls — among them a collection and a refund of more
+    than the service holds — and two environment moves.  `External` holds for every operation, the net flow is 30 and so is the
+    service's balance; every balance involved is non-negative. -/
+theorem gas_history_nonvacuous :
+    BankNonNeg st0.bank ∧
+    (∀ op ∈ opsG, External st0.self op) ∧
+    outcomes H0 st0 opsG =
+      [none, none, none, none, some .insufficientBalance, some .tokenCallFailed, some .unauthorized, some .unauthorized,
+       some .invalidAmount, some .unauthorized, some .tokenCallFailed, some .tokenCallFailed, none, none] ∧
+    st0.bank.bal gasTok st0.self = 0 ∧ netFlow H0 st0 gasTok opsG = 30 ∧ (run H0 st0 opsG).bank.bal gasTok st0.self = 30 ∧
+    [svcG, user, coll, other].map ((run H0 st0 opsG).bank.bal gasTok) = [30, 840, 30, 107] ∧
+    netFlow H0 st0 noTok opsG = 0 ∧ (run H0 st0 opsG).bank.bal noTok st0.self = 0 ∧
+    -- the balance equation along the way: after the payment and the top-up, before any payout
+    netFlow H0 st0 gasTok (opsG.take 2) = 70 ∧ (run H0 st0 (opsG.take 2)).bank.bal gasTok st0.self = 70 ∧
+    -- `only_collector_pays_out`: the collection lowers the service's balance
+    (step H0 (run H0 st0 (opsG.take 2)) (.collectFees [coll] coll gasTok 30)).1.bank.bal gasTok st0.self <
+      (run H0 st0 (opsG.take 2)).bank.bal gasTok st0.self ∧
+    -- `payment_exact_and_positive` / `collect_exact` / `refund_exact`: successful calls
+    (∃ st' evs, payGas H0 st0 [user] app [100] [101] [1, 2] user gasTok 50 [] = .ok (st', evs)) ∧ user ≠ st0.self ∧
+    (∃ st' evs, collectFees (run H0 st0 (opsG.take 2)) [coll] coll gasTok 30 = .ok (st', evs)) ∧
+    (∃ st' evs, refund (run H0 st0 (opsG.take 3)) [coll] [49] user gasTok 10 = .ok (st', evs)) ∧
+    coll ≠ (run H0 st0 (opsG.take 2)).self := by
+  refine ⟨bankNonNeg_st0, ?_, ?_, ?_, ?_, ?_, ?_, ?_, ?_, ?_, ?_, ?_, exists_ok_pair_of_isOk _ (by decide +kernel), ?_,
+    exists_ok_pair_of_isOk _ (by decide +kernel), exists_ok_pair_of_isOk _ (by decide +kernel), ?_⟩ <;> decide +kernel
+
+end NonVacuity
 
 end Cgp.Props.C14
